@@ -111,6 +111,10 @@ pub fn stake_history(out: &mut crate::Out, tag: &str, seed: u64, net: NetID, sta
             }
         }
         if ci % 3 == 2 {
+            // every stake registered so far: spend attempts in this block too (every height of the walk, e.g. exactly 900 000 on Mainnet)
+            for (t, _, _) in staked.clone().iter() {
+                try_spends(&mut d, t, "during the walk");
+            }
             d.seal_next(None);
         }
     }
